@@ -162,6 +162,29 @@ package commitlog
 // (that every segment of the dropped prefix was handed to Delete() is proved per stage; its composition over the
 //  three stages needs an index-shifting argument the solvers do not find, so it is not claimed at this level)
 
+// commitLog.Clean (retention and compaction run on a snapshot of the segment list with the lock RELEASED): while it
+// works, other goroutines may append segments (the quantifier's "cleans that run while new segments are appended").
+// Every segment appended meanwhile must still be in the log afterwards, behind the cleaned ones, in order.
+// The segment list of an open log as seen under l.mu is never empty and holds no nil entry.
+//@ lockinv commitLog.mu guards segments serves C09: len(self.segments) >= 1 && (forall j int :: 0 <= j && j < len(self.segments) ==> self.segments[j] != nil)
+//@ func (*commitLog).rebaseSegments serves C09
+//@   requires l != nil && len(from) >= 1 && from[0] != nil
+//@   assumes l.leaderEpochCache != nil && wfEpochs(l.leaderEpochCache) && (epochCache != nil ==> wfEpochs(epochCache) && epochCache != l.leaderEpochCache)
+//@   ensures assumed [epoch-caches-stay-well-formed] wfEpochs(l.leaderEpochCache) && (epochCache != nil ==> wfEpochs(epochCache))
+//@   ensures [cleaned-then-appended-in-order] len(result) == old(len(to)) + old(len(from)) && (forall j int :: 0 <= j && j < old(len(to)) ==> result[j] == old(to[j])) && (forall k int :: old(len(to)) <= k && k < len(result) ==> result[k] == old(from[k - len(to)]))
+//@ func (*commitLog).clean serves C09
+//@   returns (cleaned, epochCache, err)
+//@   requires l != nil
+//@   assumes segsOK(segments) && l.deleteCleaner != nil && l.compactCleaner != nil
+//@   call (*deleteCleaner).Clean requires [retention-on-the-snapshot] arg1 == segments
+//@   ensures [something-left] err == nil && len(segments) >= 1 ==> len(cleaned) >= 1 && (forall j int :: 0 <= j && j < len(cleaned) ==> cleaned[j] != nil)
+//@   ensures assumed [epoch-caches-stay-well-formed] wfEpochs(l.leaderEpochCache) && (epochCache != nil ==> wfEpochs(epochCache) && epochCache != l.leaderEpochCache)
+//@ func (*commitLog).Clean serves C09
+//@   requires l != nil
+//@   assumes l.leaderEpochCache != nil && wfEpochs(l.leaderEpochCache)
+//@   call clean requires [cleans-the-snapshot] arg1 == oldSegments
+//@   call rebaseSegments requires [every-segment-appended-meanwhile-is-kept] arrOf(arg1) == arrOf(newSegments) && offOf(arg1) == offOf(newSegments) + len(oldSegments) && len(arg1) == len(newSegments) - len(oldSegments) && arg2 == cleaned
+
 // ---------------------------------------------------------------------------------------------
 // Leader epoch cache (property C02; also C05, C09): leader epoch -> first offset of that epoch
 //
@@ -502,6 +525,9 @@ package commitlog
 //@   call cleanSegment requires [same-table-and-hw] arg2 == keyOffsets && arg3 == hw
 //@   call scanKeys requires [table-of-this-log] arg1 == hw && arg2 == segments
 //@   ensures [newest-kept] err == nil ==> len(compacted) >= 1 && compacted[len(compacted)-1] == old(segments[len(segments)-1])
+//@   ensures [no-nil-entries] err == nil ==> (forall j int :: 0 <= j && j < len(compacted) ==> compacted[j] != nil)
+//@   loop 1 invariant forall j int :: 0 <= j && j < len(compacted) ==> compacted[j] != nil
+//@   loop 2 invariant forall j int :: 0 <= j && j < len(compacted) ==> compacted[j] != nil
 //@   loop 1 invariant -1 <= rangeindex && rangeindex < len(segments) - 1
 //@   loop 1 invariant fresh(compacted)
 //@   loop 1 invariant keyOffsets != nil && epochCache != nil
@@ -517,6 +543,9 @@ package commitlog
 //@   returns (out, epochCache, err)
 //@   requires c != nil
 //@   ensures [single-segment-untouched] len(segments) <= 1 ==> out == segments && err == nil
+//@   assumes forall i int :: 0 <= i && i < len(segments) ==> segments[i] != nil
+//@   assumes forall i int, j int :: 0 <= i && i < j && j < len(segments) ==> segments[i] != segments[j]
+//@   ensures [something-left] err == nil && len(segments) >= 1 ==> len(out) >= 1 && (forall j int :: 0 <= j && j < len(out) ==> out[j] != nil)
 //@   call compact requires [whole-log] len(segments) >= 2 && arg1 == hw && arg2 == segments
 
 // ---------------------------------------------------------------------------------------------
